@@ -75,6 +75,10 @@ structure TokenFacts where
   alg : String := ""
   kid : Kid := .absent
   signer : Signer := .other
+  /-- the signature segment has the byte length the `alg`'s method insists on before it
+  touches the key (`SigningMethodECDSA.Verify`: `len(sig) == 2*KeySize`); only consulted on
+  the nil-key path of a keyless verifier -/
+  sigLenOk : Bool := true
   /-- `exp`, `nbf` (same unit as `now`) -/
   exp : Option Int := none
   nbf : Option Int := none
@@ -194,7 +198,9 @@ def checkSignature (owner : String) (c : Cfg) (tok : TokenFacts) : SigResult :=
   | .emptySecret =>
     -- HMAC over the empty secret: only reachable for `alg` ∈ HS*
     if decide (tok.signer = .emptyHmac) then .good else .bad
-  | .nilKey => .panic
+  | .nilKey =>
+    -- ECDSA rejects a signature of the wrong length before it dereferences the (nil) key
+    if algFam tok.alg = .es ∧ tok.sigLenOk = false then .bad else .panic
   | .set ks =>
     if ks = [] then .bad
     else if ks.any (fun p => sigOkKey owner tok p.1 p.2) then .good else .bad
